@@ -1244,4 +1244,55 @@ def eliminate_none_sentinel(fn: ast.FunctionDef) -> ast.FunctionDef:
                         changed = True
                         continue
                 i += 1
+    # value position: `x = V if c else None` ... `E if x is None else x` (E a fresh constant
+    # object: `Floor()`): x is `V if c else E` from the start, and the use is x
+    def fresh(e) -> bool:
+        return isinstance(e, ast.Call) and isinstance(e.func, ast.Name) and \
+            e.func.id[:1].isupper() and not e.args and not e.keywords
+    for parent in ast.walk(new):
+        for field in ('body', 'orelse'):
+            blk = getattr(parent, field, None)
+            if not (isinstance(blk, list) and blk and isinstance(blk[0], ast.stmt)):
+                continue
+            for i, a in enumerate(blk):
+                if not (isinstance(a, ast.Assign) and len(a.targets) == 1 and
+                        isinstance(a.targets[0], ast.Name) and isinstance(a.value, ast.IfExp)):
+                    continue
+                x = a.targets[0].id
+                nf = isinstance(a.value.body, ast.Constant) and a.value.body.value is None
+                nl = isinstance(a.value.orelse, ast.Constant) and a.value.orelse.value is None
+                if nf == nl or total.get(x, 0) != 3:
+                    continue
+                v = a.value.orelse if nf else a.value.body
+                if not isinstance(v, (ast.Name, ast.Attribute, ast.Subscript, ast.Call)):
+                    continue
+                use = None
+                for later in blk[i + 1:]:
+                    for n in ast.walk(later):
+                        if isinstance(n, ast.IfExp) and isinstance(n.test, ast.Compare) and \
+                                len(n.test.ops) == 1 and isinstance(n.test.left, ast.Name) and \
+                                n.test.left.id == x and \
+                                isinstance(n.test.comparators[0], ast.Constant) and \
+                                n.test.comparators[0].value is None:
+                            isnone = isinstance(n.test.ops[0], ast.Is)
+                            alt, same = (n.body, n.orelse) if isnone else (n.orelse, n.body)
+                            if isinstance(same, ast.Name) and same.id == x and fresh(alt) and \
+                                    isinstance(n.test.ops[0], (ast.Is, ast.IsNot)):
+                                use = (n, alt)
+                if use is None:
+                    continue
+                n, alt = use
+                a.value = ast.IfExp(a.value.test, alt if nf else v, v if nf else alt)
+                # the use becomes the name
+                for later in blk[i + 1:]:
+                    for p_ in ast.walk(later):
+                        for fld, val in ast.iter_fields(p_):
+                            if val is n:
+                                setattr(p_, fld, ast.Name(x, ast.Load()))
+                            elif isinstance(val, list):
+                                for k_, it in enumerate(val):
+                                    if it is n:
+                                        val[k_] = ast.Name(x, ast.Load())
+                ast.fix_missing_locations(new)
+                changed = True
     return new if changed else fn
